@@ -55,6 +55,52 @@ def corpus_import_delete_race(e):
     return []
 
 
+def corpus_pull_delete_race(e):
+    """regression corpus (known finding F26): a copy recorded corrupt *and* released sits on a node into whose group a transfer of
+    the same file is pending; one pass queues the deletion of the copy and the forced re-pull over it in the same node FIFO,
+    and two workers run them at once: up to 150 seeded two-worker schedules of that one pass"""
+    import dharness
+    import world as worldmod
+    for trial in range(150):
+        rng = random.Random(f"pull-delete-race-{trial}")
+        case = dharness.DWorld.__new__(dharness.DWorld)
+        w = worldmod.World(e)
+        db = w.db
+        for m in (db.StorageTransferAction, db.ArchiveFileCopyRequest, db.ArchiveFileImportRequest, db.ArchiveFileCopy,
+                  db.ArchiveFile, db.ArchiveAcq, db.StorageNode, db.StorageGroup):
+            m.delete().execute()
+        import shutil
+        shutil.rmtree(os.path.join(e.tmp, "roots"), ignore_errors=True)
+        g1, g2, g3 = w.group("g1"), w.group("g2"), w.group("g3")
+        n1, a1, a2 = w.node("n1", g1, stype="F"), w.node("a1", g2, stype="A"), w.node("a2", g3, stype="A")
+        f = w.file(w.acq("acq"), "sub/f0.dat", b"payload payload")
+        w.copy(f, n1, has="X", wants="N", on_disk=b"corrupt corrupt")
+        w.copy(f, a1, has="Y")
+        w.copy(f, a2, has="Y")
+        w.req(f, a1, g1)
+        case.env, case.rng, case.w = e, rng, w
+        case.hosts = ["h1"]
+        case.daemons = {"h1": (worldmod.PersistentDaemon if dharness.verif_persistent(e) else worldmod.Daemon)(e, "h1")}
+        case.marker_state = {x.id: "ok" for x in (n1, a1, a2)}
+        case.tracked, case.view, case.initq = set(), {}, {}
+        case.nodes, case.groups, case.files = [n1, a1, a2], [g1, g2, g3], [f]
+        case.rich = case.multi = case.churn = case.hsm = False
+        case.set_tools("none", "ok")
+        try:
+            case.iterate("h1")
+            ran, schedule, excs = case.concurrent_drain("h1", rng, nw=2)
+        finally:
+            case.close()
+            os.environ["PATH"] = "/usr/local/bin:/usr/bin:/bin"
+        c = db.ArchiveFileCopy.get(file=f, node=n1)
+        on_disk = w.file_on(n1, f)
+        if (c.has_file == "N" and on_disk is not None) or (c.has_file == "Y" and on_disk is None):
+            return [f"two workers ran {ran} with schedule {''.join(map(str, schedule))}: the deletion of the released, corrupt copy of "
+                    f"acq/sub/f0.dat on n1 and the forced re-pull over it ran at once; afterwards the copy is recorded "
+                    f"has_file={c.has_file} wants_file={c.wants_file} while the file is {'on disk' if on_disk is not None else 'gone'}"]
+    return []
+
+
 def corpus_index_clauses(ctx, e):
     """scripted cases for two clauses, run before the random histories: "a copy recorded removed by the daemon is gone from disk"
     under an I/O error of the unlink, and "a completed request implies a copy recorded in its destination group" for every
@@ -239,6 +285,8 @@ def run(ctx):
             ctx.violation("index:corpus:" + p[:40].replace(" ", "_"), p, {"kind": "corpus2", "name": "index clauses"})
         for p in corpus_bad_source(ctx, e):
             ctx.violation("index:corpus:bad-source", p, {"kind": "corpus2", "name": "transfer from a copy recorded bad"})
+        for p in corpus_pull_delete_race(e):
+            ctx.violation("pull-delete-race", p, {"kind": "corpus", "name": "pull vs delete of one file by two workers"})
         for p in corpus_import_delete_race(e):
             ctx.violation("import-delete-race", p, {"kind": "corpus", "name": "import vs delete of one file by two workers"})
         for i in range(nh):
@@ -256,6 +304,11 @@ def run(ctx):
                     ctx.violation("import-delete-race", p + " [two-worker pass: " + last2w[:200] + "]",
                                   {"kind": "dhistory", "hseed": hseed, "last_steps": ctxlog, "history": log})
                     continue
+                m2_ = re.search(r"copy \d+ of (\S+) on (\S+) was recorded removed .* by \('tasks-2-workers'", p)
+                if m2_ and re.search(r"Delete copies \[[^\]]*\] from " + re.escape(m2_.group(2)) + r"'", p) and \
+                        re.search(r"AFCR#\d+: \S+ -> " + re.escape(m2_.group(2)) + r"'", p):
+                    ctx.violation("pull-delete-race", p, {"kind": "dhistory", "hseed": hseed, "last_steps": ctxlog, "history": log})
+                    continue
                 ctx.violation("index:" + p[:40].replace(" ", "_"), p, {"kind": "dhistory", "hseed": hseed, "last_steps": ctxlog, "history": log})
     ctx.coverage["rule"] = ("same multi-daemon histories as C07; after every step the real index and all node trees are checked: unique "
                             "(file,node) and (acq,name), legal states, completed request => ordered timestamps and a copy in its group, "
@@ -272,7 +325,7 @@ def replay(ctx, path):
     print(json.dumps({k: d[k] for k in d if k != "history"}, indent=1)[:3000])
     if d.get("kind") == "corpus":
         with envmod.Env(dbfile=True) as e:
-            probs = corpus_import_delete_race(e)
+            probs = corpus_pull_delete_race(e) if "pull vs delete" in d.get("name", "") else corpus_import_delete_race(e)
         for p in probs:
             print("VIOLATION-REPRODUCED:", p)
         return 1 if probs else 0
